@@ -61,6 +61,8 @@ def make_syst(n, m, mode):
         ctx.check("non-decreasing", z3.BoolVal(all(idx[k] <= idx[k + 1] for k in range(n - 1))))
         if not all(0 <= i < m for i in idx):
             return idx
+        # ceil(n * 0) = 0: an index whose weight is exactly zero is never returned (also inside the accepted sum tolerance)
+        ctx.check("zero-weight-never-selected", z3.And(*[lt(0, w[i]) for i in sorted(set(idx))]))
         # inverse-CDF clause on the weights the routine actually uses
         wn = w if mode != "renorm" else [x / tot for x in w]
         cum = []
@@ -74,7 +76,9 @@ def make_syst(n, m, mode):
             if i > 0:
                 conds.append(le(cum[i - 1], pos))
             if i < m - 1:
-                conds.append(le(pos, cum[i]))
+                # the slack of the accepted sum tolerance belongs to the last cell of positive width
+                tail_zero = z3.And(*[eq(wn[t_], 0) for t_ in range(i + 1, m)])
+                conds.append(z3.Or(le(pos, cum[i]), z3.And(tail_zero, le(pos, cum[i] + EPS))))
             else:
                 conds.append(le(pos, cum[i] + EPS))
         ctx.check("inverse-cdf", z3.And(*conds) if conds else z3.BoolVal(True))
@@ -110,6 +114,8 @@ def make_syst(n, m, mode):
             bad = not all(0 <= i < m for i in idx)
         elif label == "non-decreasing":
             bad = any(idx[k] > idx[k + 1] for k in range(len(idx) - 1))
+        elif label == "zero-weight-never-selected":
+            bad = any(w[i] == 0.0 for i in idx)
         elif label == "copies-floor-or-ceil":
             # relative slack only: a zero weight must get zero copies
             bad = any(not (math.floor(n * wn[i] * (1 - 1e-9)) <= idx.count(i) <= math.ceil(n * wn[i] * (1 + 1e-9)))
@@ -120,7 +126,7 @@ def make_syst(n, m, mode):
             for k, i in enumerate(idx):
                 pos = (u0 + k) / n
                 lo = cum[i - 1] if i > 0 else -1.0
-                hi = cum[i] if i < m - 1 else cum[i] + 2 * tools.SQRTEPS
+                hi = cum[i] if (i < m - 1 and np.any(wn[i + 1:] > 0)) else cum[i] + 2 * tools.SQRTEPS
                 if not (lo - 1e-12 <= pos <= hi + 1e-12):
                     bad = True
         return {"reproduced": bool(bad), "signature": f"systematic_resample:{label}", "payload": {**payload, "idx": idx},
@@ -329,6 +335,8 @@ def make_syst_fp(n, m):
         idx = [int(i) for i in idx]
         ctx.check("exactly-n-valid-nondecreasing", _z3.BoolVal(len(idx) == n and all(0 <= i < m for i in idx)
                                                               and all(idx[k] <= idx[k + 1] for k in range(n - 1))))
+        if all(0 <= i < m for i in idx):
+            ctx.check("zero-weight-never-selected", _z3.And(*[_z3.fpGT(ws[i].z, fpval(0.0)) for i in sorted(set(idx))]))
         return idx
 
     def run_concrete(model):
@@ -345,8 +353,11 @@ def make_syst_fp(n, m):
             return {"reproduced": True, "signature": "systematic_resample:IndexError", "payload": payload,
                     "what": f"tools.systematic_resample({n}, w={payload['w']}) with np.random.random()={payload['u0']!r} raises IndexError: {e}"}
         idx = [int(i) for i in idx]
-        bad = len(idx) != n or not all(0 <= i < m for i in idx) or any(idx[k] > idx[k + 1] for k in range(n - 1))
-        return {"reproduced": bad, "signature": f"systematic_resample:fp:{label}", "payload": {**payload, "idx": idx},
+        if label == "zero-weight-never-selected":
+            bad = any(w[i] == 0.0 for i in idx if 0 <= i < m)
+        else:
+            bad = len(idx) != n or not all(0 <= i < m for i in idx) or any(idx[k] > idx[k + 1] for k in range(n - 1))
+        return {"reproduced": bool(bad), "signature": f"systematic_resample:fp:{label}", "payload": {**payload, "idx": idx},
                 "what": f"tools.systematic_resample({n}, {payload['w']}) with u0={payload['u0']!r} returned {idx}"}
 
     def validate(witness, ret):
